@@ -164,10 +164,24 @@ Fixpoint parse_fsteps (fuel : nat) (ts : list str) : option (list fstep) :=
                 let fl := if str_eqb n [45] then Some None
                           else match hex_to_N n with Some n => Some (Some (N.to_nat n)) | None => None end in
                 match fl, parse_sop r1 with
-                | Some fl, Some (o, r2) => match parse_fsteps f r2 with Some l => Some (FOp fl o :: l) | None => None end
+                | Some fl, Some (o, r2) => match parse_fsteps f r2 with Some l => Some (FOp fl fx_none o :: l) | None => None end
                 | _, _ => None
                 end
             | [] => None
+            end
+          else if chr 103 t then
+            (* g <n|-> <flags> <sop> : flags = 1 deletions fail + 2 listing fails + 4 create leaves the file *)
+            match r with
+            | n :: m :: r1 =>
+                let fl := if str_eqb n [45] then Some None
+                          else match hex_to_N n with Some n => Some (Some (N.to_nat n)) | None => None end in
+                match fl, hex_to_N m, parse_sop r1 with
+                | Some fl, Some m, Some (o, r2) =>
+                    let fx := {| fx_del := N.testbit m 0; fx_list := N.testbit m 1; fx_leave := N.testbit m 2 |} in
+                    match parse_fsteps f r2 with Some l => Some (FOp fl fx o :: l) | None => None end
+                | _, _, _ => None
+                end
+            | _ => None
             end
           else if chr 122 t then
             match parse_fsteps f r with Some l => Some (FRestart :: l) | None => None end
